@@ -1,6 +1,7 @@
 (* C19: work and memory are bounded by the input actually supplied. *)
 From Coq Require Import List NArith Lia Bool.
 From Rpgp Require Import Base.Octets Kdf.Kdf Cost.Cost Cost.CostProofs.
+From Rpgp Require Import Base.Res Sym.Cfb Sym.Seipd1Machine Sym.Seipd1MachineProofs Aead.Seipd2 Aead.Seipd2Machine Aead.Seipd2MachineProofs Frame.Framing Frame.BodyReader Frame.BodyReaderProofs.
 Import ListNotations.
 Open Scope N_scope.
 
@@ -30,3 +31,25 @@ Print Assumptions C19_argon2_gate_bounds.
 Theorem C19_iterated_count_bounded : forall c, c < 256 -> decode_count c <= 65011712.
 Proof. exact iterated_count_bounded. Qed.
 Print Assumptions C19_iterated_count_bounded.
+
+(* the streaming readers hold a bounded amount however long the stream is and whatever the consumer asks for:
+   invariants of the state machines of C03 / C17 (preserved by every read) *)
+Theorem C19_v1_stream_decryptor_buffer_bounded :
+  forall E bs sha1, 1 <= bs -> (forall x, lenN (E x) = bs) ->
+    forall n s, lenN (Seipd1Machine.buf s) <= BUF ->
+      lenN (Seipd1Machine.buf (fst (Seipd1Machine.take E bs sha1 None n s))) <= BUF.
+Proof. exact take_buffer_bound. Qed.
+Print Assumptions C19_v1_stream_decryptor_buffer_bounded.
+
+Theorem C19_v2_stream_decryptor_buffer_bounded :
+  forall open c key iv info, 1 <= c ->
+    (forall k n a x pt, open k n a x = Some pt -> lenN pt + TAGLEN = lenN x) ->
+    forall n s, lenN (inbuf s) + lenN (outb s) <= 2 * (c + TAGLEN) ->
+      lenN (inbuf (fst (a_take open c key iv info n s))) + lenN (outb (fst (a_take open c key iv info n s))) <= 2 * (c + TAGLEN).
+Proof. exact a_take_bound. Qed.
+Print Assumptions C19_v2_stream_decryptor_buffer_bounded.
+
+Theorem C19_packet_body_reader_buffer_bounded :
+  forall n s, lenN (bbuf s) <= BUFSZ -> lenN (bbuf (fst (br_take n s))) <= BUFSZ.
+Proof. exact br_take_bound. Qed.
+Print Assumptions C19_packet_body_reader_buffer_bounded.
